@@ -93,6 +93,8 @@ def gen_history(rng: random.Random, nworkers: int, configs, hist_id: str):
             if rng.random() < 0.25:
                 cfgs[w2] = {"hashseed": rng.randrange(2 ** 32),
                             "prelude": rng.randrange(1, 10 ** 6)}
+                if rng.random() < 0.2:
+                    cfgs[w2]["optimize"] = True
                 ops.append({"op": "crash", "w": w2, "config": dict(cfgs[w2])})
                 handles[w2] = []
             ops.append({"op": "unpickle", "w": w2, "blob": rng.choice(blobs),
@@ -127,7 +129,7 @@ def gen_history(rng: random.Random, nworkers: int, configs, hist_id: str):
 class Fleet:
     def __init__(self, configs):
         self.configs = [dict(c) for c in configs]
-        self.workers = [fleet.Worker(c["hashseed"], c["prelude"], str(i))
+        self.workers = [fleet.Worker.from_config(c, str(i))
                         for i, c in enumerate(self.configs)]
         self.restarts = 0
         self.fps = [w.call("fingerprint") for w in self.workers]
@@ -135,8 +137,7 @@ class Fleet:
     def restart(self, w, config):
         self.workers[w].kill()
         self.configs[w] = dict(config)
-        self.workers[w] = fleet.Worker(config["hashseed"], config["prelude"],
-                                       str(w))
+        self.workers[w] = fleet.Worker.from_config(config, str(w))
         self.restarts += 1
         self.fps.append(self.workers[w].call("fingerprint"))
 
